@@ -105,6 +105,14 @@ PROPS = {
         ],
         "explanation": "",
     },
+    "C06": {
+        "modules": ["contracts.c06_framing"],
+        "level": "proof",
+        "trusted_base": [T_PY, T_ENGINE, T_SOLVER, T_AIO, "T-str: axiom schemas for rstrip / isdigit (uninterpreted functions constrained by consequences of the CPython semantics; DESIGN.md 2.9, 2.12)", "T-enc: encode/decode inverse and stateless"],
+        "assumptions": ["carrier set of the round trip: reply lines without trailing whitespace (the property's own carrier: the client rstrips every line)", "segmentation independence is T-aio's readline contract"],
+        "not_decided": ["encodings in which 0x0A occurs inside a character", "BaseClient.command's wait/expected loop (uses parse_response and Code.matches through their contracts; not yet under contract itself)", "resynchronisation after a rejected reply: parse_response consumes whole lines only (follows from parse_line's contract), not stated as a separate obligation"],
+        "explanation": "",
+    },
     "C10": {
         "modules": ["contracts.c10_limits", "contracts.server_units", "contracts.c03_auth", "contracts.dispatcher_units"],
         "level": "proof",
